@@ -27,6 +27,7 @@ type CaseC16 struct {
 	GoEmpty    bool                   `json:"go_empty,omitempty"`
 	CheckValid bool                   `json:"check_valid,omitempty"` // XmlCheckIsValid on: with escaping on every output is valid, so nothing may change
 	Alias      *AliasSpec             `json:"alias,omitempty"`       // one of the equal Maps holds a container object twice ("however they were built")
+	ManyAttrs  int                    `json:"many_attrs,omitempty"`  // > 0: one element of the value carries that many attributes and as many child elements (expanded at check time)
 }
 
 func init() { register("C16", checkC16) }
@@ -54,6 +55,9 @@ func genC16(t *rapid.T) CaseC16 {
 			}
 		}
 		c.Map = m
+		if rapid.IntRange(0, 299).Draw(t, "manyattrs") == 131 {
+			c.ManyAttrs = rapid.SampledFrom([]int{64, 257, 300, 1025}).Draw(t, "nattrs")
+		}
 	case "doc":
 		g := XGen{Opts: defaultOpts(), MixedText: true, Namespaces: true}
 		c.Doc = g.Elem(t, 3)
@@ -308,6 +312,15 @@ func checkC16(c CaseC16, info *Info) *Failure {
 		if m == nil {
 			info.Skip = "empty case"
 			return nil
+		}
+		if c.ManyAttrs > 0 {
+			wide := map[string]interface{}{}
+			for i := 0; i < c.ManyAttrs; i++ {
+				wide[fmt.Sprintf("-h%04d", (i*7919)%c.ManyAttrs)] = fmt.Sprintf("v%d", i)
+				wide[fmt.Sprintf("e%04d", (i*104729)%c.ManyAttrs)] = float64(i)
+			}
+			m["wide"] = wide
+			info.Class("an element with 64 to 1025 attributes and as many children")
 		}
 		if len(m) == 1 {
 			for k, v := range m {
